@@ -16,6 +16,7 @@ import (
 	"fmt"
 	"io"
 	"os"
+	"strconv"
 	"os/exec"
 	"path/filepath"
 	"reflect"
@@ -82,6 +83,16 @@ func c12Check(tables [][]byte, mode int) (v c12Verdict) {
 		}
 	}
 	v.Objects = len(tree.objPool)
+	total := 0
+	for _, b := range tables {
+		total += len(b)
+	}
+	if v.Objects > 64+2*total {
+		// every object the parser creates stands for at least one byte of the table it came
+		// from; far more objects than bytes means that bytes were parsed over and over
+		return c12Verdict{Outcome: "blowup", Objects: v.Objects,
+			Detail: fmt.Sprintf("%d objects for %d bytes of AML (6 of them predefined): parts of the input were parsed again and again, the work is not bounded by the size of the input", v.Objects, total)}
+	}
 	if d := c12StraySlices(tree, bufs); d != "" {
 		return c12Verdict{Outcome: "stray", Detail: d, Objects: v.Objects}
 	}
@@ -371,6 +382,31 @@ func c12Ask(tables [][]byte, mode int) (c12Verdict, error) {
 			}
 		}
 	}()
+	// the deadline counts wall-clock time AND the worker's CPU time: a stalled machine must not
+	// be mistaken for a parser that does not terminate
+	cpu0 := c12WorkerCPU(w.cmd.Process.Pid)
+	wallOut := time.After(c12CurrentDeadline())
+	expired := make(chan struct{})
+	stopPoll := make(chan struct{})
+	defer close(stopPoll)
+	go func() {
+		select {
+		case <-wallOut:
+		case <-stopPoll:
+			return
+		}
+		for {
+			if c12WorkerCPU(w.cmd.Process.Pid)-cpu0 >= c12CurrentDeadline() {
+				close(expired)
+				return
+			}
+			select {
+			case <-stopPoll:
+				return
+			case <-time.After(100 * time.Millisecond):
+			}
+		}
+	}()
 	select {
 	case r := <-ch:
 		if r.err != nil {
@@ -384,11 +420,32 @@ func c12Ask(tables [][]byte, mode int) (c12Verdict, error) {
 			return c12Verdict{}, fmt.Errorf("bad verdict line %q: %v", r.line, err)
 		}
 		return v, nil
-	case <-time.After(c12CurrentDeadline()):
+	case <-expired:
 		w.kill()
 		c12TheWorker = nil
 		return c12Verdict{Outcome: "hang", Detail: fmt.Sprintf("no verdict within %v", c12Deadline)}, nil
 	}
+}
+
+// c12WorkerCPU is the CPU time (user + system) the worker process has consumed, from
+// /proc/<pid>/stat (clock ticks of 10 ms); 0 when it cannot be read.
+func c12WorkerCPU(pid int) time.Duration {
+	b, err := os.ReadFile(fmt.Sprintf("/proc/%d/stat", pid))
+	if err != nil {
+		return 0
+	}
+	// the fields after the parenthesised command name
+	i := bytes.LastIndexByte(b, ')')
+	if i < 0 {
+		return 0
+	}
+	f := strings.Fields(string(b[i+1:]))
+	if len(f) < 13 {
+		return 0
+	}
+	ut, _ := strconv.ParseInt(f[11], 10, 64)
+	st, _ := strconv.ParseInt(f[12], 10, 64)
+	return time.Duration(ut+st) * 10 * time.Millisecond
 }
 
 // c12ClassifyCrash reduces the stderr of a dead worker to a deterministic
@@ -459,6 +516,8 @@ func c12Judge(c c12Case) (*vlib.Failure, c12Verdict) {
 		return vlib.Failf("the parser crashed the process on a %d-byte table: %s", len(c.Tables[len(c.Tables)-1]), v.Detail), v
 	case "hang":
 		return vlib.Failf("the parser did not terminate within %v on a %d-byte table (a hang is confirmed three times in fresh processes before it is reported)", c12Deadline, len(c.Tables[len(c.Tables)-1])), v
+	case "blowup":
+		return vlib.Failf("after parsing: %s", v.Detail), v
 	case "stray":
 		return vlib.Failf("after parsing: %s", v.Detail), v
 	case "broken-tree":
@@ -538,7 +597,7 @@ func c12Mutate(t *rapid.T, body []byte, donor []byte) ([]byte, []string) {
 	var kinds []string
 	n := rapid.IntRange(1, 4).Draw(t, "nmut")
 	for i := 0; i < n && len(b) > 0; i++ {
-		k := rapid.SampledFrom([]string{"truncate", "flip", "byte", "pkglen", "pkglen", "selfname", "splice", "swapop", "dup", "insert", "nest", "bufnest", "bufnest", "fieldconn", "extop", "selfpath", "selfpath"}).Draw(t, "mutk")
+		k := rapid.SampledFrom([]string{"truncate", "flip", "byte", "pkglen", "pkglen", "selfname", "splice", "swapop", "dup", "insert", "nest", "bufnest", "bufnest", "fieldconn", "extop", "selfpath", "selfpath", "outrun"}).Draw(t, "mutk")
 		pos := rapid.IntRange(0, len(b)-1).Draw(t, "pos")
 		switch k {
 		case "truncate":
@@ -676,6 +735,32 @@ func c12Mutate(t *rapid.T, body []byte, donor []byte) ([]byte, []string) {
 			ins = append(ins, follower(s2)...)
 			if rapid.Bool().Draw(t, "spsecond") {
 				ins = append(ins, follower(s1)...)
+			}
+			b = append(b[:pos], append(ins, b[pos:]...)...)
+		case "outrun":
+			// packages that claim to extend beyond the package that contains them, nested: at
+			// every level a short outer package (Buffer, Package, VarPackage) whose first operand
+			// is a longer package that runs on over the next level
+			depth := rapid.SampledFrom([]int{1, 2, 3, 5, 8, 12, 16, 20, 24, 28}).Draw(t, "outrundepth")
+			outer := rapid.SampledFrom([]byte{0x11, 0x11, 0x12, 0x13}).Draw(t, "outrunouter")
+			inner := rapid.SampledFrom([]byte{0x12, 0x12, 0x11, 0x13}).Draw(t, "outruninner")
+			short := byte(rapid.SampledFrom([]int{5, 5, 4, 6, 8}).Draw(t, "outrunshort"))
+			lead := rapid.SampledFrom([][]byte{{0x70}, {0x70}, {}, {0x08, 'O', 'U', 'T', '_'}, {0xa4}}).Draw(t, "outrunlead") // Store / bare / Name / Return
+			level := []byte{0x00}
+			for k := 0; k < depth; k++ {
+				p := 4 + len(level)
+				level = append(append(append([]byte(nil), lead...), outer, short, inner, 0x40|byte(p&0xf), byte(p>>4), 0x01, 0x00), level...)
+			}
+			var ins []byte
+			switch rapid.IntRange(0, 3).Draw(t, "outrunwrap") {
+			case 0, 1: // While(One) { ... }
+				n := 2 + 1 + len(level)
+				ins = append([]byte{0xa2, 0x40 | byte(n&0xf), byte(n >> 4), 0x01}, level...)
+			case 2: // Method(OUTR) { ... }
+				n := 2 + 4 + 1 + len(level)
+				ins = append([]byte{0x14, 0x40 | byte(n&0xf), byte(n >> 4), 'O', 'U', 'T', 'R', 0x00}, level...)
+			default:
+				ins = level
 			}
 			b = append(b[:pos], append(ins, b[pos:]...)...)
 		case "extop":
